@@ -102,6 +102,7 @@ prop(
         'values; plus the keyword skeleton of every phrase rule. D4 ms divides by 1000, s is identity. T1 operator table. '
         'Not decided: that lark executes its own tables faithfully; int()/float() on every NUMBER lexeme.'
         ' X12: no callback or AST method with a declared result can fall off its end (a dropped `return` would hand None to the parent callback).'
+        ' X6: the parse_* helpers and parser factories keep no module-level or per-object state (a parser cache keyed by start rule made parse_condition and parse_expresion share one transformer: the tree then depends on the call order; seeded C01d4).'
     ),
 )
 
@@ -179,6 +180,7 @@ prop(
         'transformer/parser objects, no module-level mutable state written or handed out. X5: assert census (informational). '
         'Not decided: termination/recursion depth, implicit AttributeError on dynamically typed receivers.'
         ' X13: no attribute of a narrower node class is read from an un-narrowed value (AttributeError is not a documented failure).'
+        " X15: no parser function reads a constant key of a mapping it fills with computed keys unless a test, a constant-key store or a KeyError handler establishes it (metadata['id'] read in the duplicate-key branch let KeyError leave the parser; seeded C07d4)."
     ),
 )
 
